@@ -1,6 +1,21 @@
 """Per-property manifest metadata.  bin/mkmanifest renders MANIFEST.json from this."""
 
 CHECKS = {
+    "C13": dict(
+        text="spec/Incoming.tla is the mapping specification: an incoming-message callback of type unicast / multicast / broadcast yields "
+             "exactly one packet with source, endpoints, profile, cluster, APS sequence, payload, LQI and signed RSSI of the callback and "
+             "a destination by type (own address / group ID / broadcast), every other type none; a trust-centre join callback yields a "
+             "leave for a departure, nothing for a denied join, else a join with addresses and parent; the pre-v14 and v14 wire field "
+             "orders are pinned. IncomingMC checks totality over all 256 type / status / decision bytes. For every version 4..14 the "
+             "harness's own byte-level encoder builds the callback frames (120 quick / 1500 thorough incoming messages incl. all message "
+             "types, payload lengths 0..100, RSSI extremes; all status x decision combinations) in the version's field order and header "
+             "layout and feeds them through EZSP.frame_received into the real ControllerApplication; TLC judges what zigpy received.",
+        design_ref="3/C13",
+        note="Input-quantified mapping; the TLA+ text is the independent reference and TLC the evaluator. Trusted: compat shim, the "
+             "harness's encoder (frame IDs, field orders and enum codes pinned from the EZSP reference), instance-level wrappers of "
+             "packet_received / handle_join / handle_leave.",
+        technique="TLA+ mapping specification evaluated by TLC on callbacks encoded independently and fed to the implementation (trace validation) + TLC totality check",
+    ),
     "C12": dict(
         text="spec/SendPacket.tla is an observer over send_packet runs with every clause an enabling condition: a request returns normally "
              "only after the NCP accepted it and (unicast) a confirmation for its own destination and tag reported success; refusal, "
